@@ -22,7 +22,7 @@ RULE = ('descriptor = seeded batch of scenarios; scenario = 1..8 distinct regist
         'header of those ports dispatched after every step.')
 ASSUMPTIONS = ['matching rule: (header port & port mask) == registered port and (header channel & channel mask) == '
                'registered channel']
-REQUIRED = ['mon.registrations_switched_from_an_all_packet_callback', 'mon.bound_method_registrations_removed_through_a_fresh_lookup_of_the_method', 'mon.received_packets_readdressed_by_a_callback', 'mon.scenarios_with_a_second_dispatcher_in_the_process', 'mon.packets_without_payload', 'mon.removals_of_absent_registrations', 'mon.packets', 'mon.must_deliveries', 'mon.mutations_executed', 'mon.raising_callbacks',
+REQUIRED = ['mon.received_packets_shorter_than_a_pending_answer_pattern', 'mon.registrations_switched_from_an_all_packet_callback', 'mon.bound_method_registrations_removed_through_a_fresh_lookup_of_the_method', 'mon.received_packets_readdressed_by_a_callback', 'mon.scenarios_with_a_second_dispatcher_in_the_process', 'mon.packets_without_payload', 'mon.removals_of_absent_registrations', 'mon.packets', 'mon.must_deliveries', 'mon.mutations_executed', 'mon.raising_callbacks',
             'mon.caller_calls', 'mon.self_removals', 'mon.shared_callback_removals',
             'mon.shared_callback_multi_pattern_deliveries', 'mon.deliveries_through_the_public_wrappers']
 
@@ -451,6 +451,11 @@ def run_public(ctx, rnd, label):
     link = _Link([])
     cf.link = link
     free_ports = (1, 9, 10, 11, 12, 14)
+    # half of the runs: the link asks for retransmissions and requests with expected answers are pending while the
+    # packets arrive, so that the answer matching (which sees every packet first) runs against patterns that are
+    # longer than, equal to and shorter than the packets - it must neither consume nor stop the dispatching
+    pending = rnd.random() < 0.5
+    link.needs_resending = pending
     ncb = rnd.randrange(1, 4)
     calls = []
     cbs = [(lambda pk, i=i: calls.append(i)) for i in range(ncb)]
@@ -486,14 +491,30 @@ def run_public(ctx, rnd, label):
                     cf.add_header_callback(cbs[i], ent[1], ent[3], pm, cm)
             table.append(ent)
             history.append(('add',) + ent)
+        patterns = {}
+        if pending:
+            for _ in range(rnd.randrange(1, 4)):
+                ph = rnd.choice(free_ports) << 4 | rnd.randrange(4)
+                reply = tuple([1] + [rnd.randrange(256) for _ in range(rnd.randrange(0, 4))])[:rnd.randrange(1, 5)]
+                rq = CRTPPacket(ph, [7])
+                cf.send_packet(rq, expected_reply=reply, timeout=1e6)
+                patterns[ph] = reply
         for h in range(256):
             link.packets = [CRTPPacket(h, [1] if h % 3 else [])]
             link.i = 0
             del calls[:]
+            if h in patterns and len(link.packets[0].data) < len(patterns[h]):
+                ctx.count('mon.received_packets_shorter_than_a_pending_answer_pattern')
             try:
                 cf.incoming.run()
             except _Done:
                 pass
+            except Exception as e:
+                ctx.violate('dispatch:public-wrappers:processing-stopped-by-a-received-packet:%s' % type(e).__name__,
+                            {'label': label, 'header': h, 'pending_patterns': {k: list(v) for k, v in patterns.items()},
+                             'error': repr(e)})
+                cf._cancel_pending_answers()
+                return
             ctx.evals()
             ctx.count('mon.packets')
             hp, hc = (h >> 4) & 0xF, h & 3
@@ -508,7 +529,9 @@ def run_public(ctx, rnd, label):
             if got != want:
                 ctx.violate('dispatch:public-wrappers:deliveries-differ-from-matching-registrations',
                             {'label': label, 'header': h, 'history': history, 'table': table, 'want': want, 'got': got})
+                cf._cancel_pending_answers()
                 return
+        cf._cancel_pending_answers()
 
 
 def _after_self_removal(rid, start_table, script, got):
